@@ -15,9 +15,16 @@ Names == AllTools \cup UnknownNames
 
 \* the complete gating table
 TableRows ==
-  {[tool |-> t, role |-> r, mut |-> m, rc |-> c, principal |-> p, actor |-> a, shape |-> "minimal",
+  {[tool |-> t, spell |-> "exact", role |-> r, mut |-> m, rc |-> c, principal |-> p, actor |-> a, shape |-> "minimal",
     lab |-> ShapeLab(t, a, "minimal")] :
      t \in Names, r \in Roles, m \in BOOLEAN, c \in BOOLEAN, p \in BOOLEAN, a \in Actors}
+
+\* the tool-NAME spelling dimension: every tool under every near-miss spelling of its name, with the tool's own valid
+\* arguments, under every server configuration (if the misspelled name were taken for the tool, the tool would act)
+SpellRows ==
+  {[tool |-> t, spell |-> sp, role |-> r, mut |-> m, rc |-> c, principal |-> p, actor |-> "absent", shape |-> "minimal",
+    lab |-> ShapeLab(t, "absent", "minimal")] :
+     t \in AllTools, sp \in Spellings \ {"exact"}, r \in Roles, m \in BOOLEAN, c \in BOOLEAN, p \in BOOLEAN}
 
 \* server configurations under which the argument shapes are tried: everything on, and one of each denial
 Contexts == {[role |-> "admin", mut |-> TRUE,  rc |-> TRUE,  principal |-> TRUE],
@@ -26,13 +33,13 @@ Contexts == {[role |-> "admin", mut |-> TRUE,  rc |-> TRUE,  principal |-> TRUE]
              [role |-> "admin", mut |-> TRUE,  rc |-> TRUE,  principal |-> FALSE]}
 
 ShapeRowsOf(t) ==
-  {[tool |-> t, role |-> c.role, mut |-> c.mut, rc |-> c.rc, principal |-> c.principal,
+  {[tool |-> t, spell |-> "exact", role |-> c.role, mut |-> c.mut, rc |-> c.rc, principal |-> c.principal,
     actor |-> (IF s \in ActorShapes \cup {"proxy_actor"} THEN "different" ELSE "absent"), shape |-> s,
     lab |-> ShapeLab(t, IF s \in ActorShapes \cup {"proxy_actor"} THEN "different" ELSE "absent", s)] :
      s \in {x \in Shapes \ {"minimal"} : ShapeApplies(t, x)}, c \in Contexts}
 ShapeRows == UNION {ShapeRowsOf(t) : t \in AllTools}
 
-Rows == TableRows \cup ShapeRows
+Rows == TableRows \cup SpellRows \cup ShapeRows
 
 Init == row \in Rows
 Next == UNCHANGED row
@@ -52,11 +59,11 @@ ASSUME /\ Cardinality(AllTools) = 31
        /\ MutatingTools \subseteq MutationFlagTools \cup RuntimeFlagTools   \* no mutating tool without a feature flag
        /\ ReadTools \cap (MutationFlagTools \cup RuntimeFlagTools) = {}      \* "Default mode is read-only"
        /\ ActorTools \subseteq MutatingTools /\ StrictTools \subseteq MutatingTools
-       /\ UnknownNames \cap AllTools = {}
+       /\ UnknownNames \cap AllTools = {} /\ NotATool \notin AllTools
 
 TypeOK ==
   /\ row.role \in Roles /\ row.mut \in BOOLEAN /\ row.rc \in BOOLEAN /\ row.principal \in BOOLEAN
-  /\ row.actor \in Actors /\ row.shape \in Shapes /\ ShapeApplies(row.tool, row.shape)
+  /\ row.actor \in Actors /\ row.shape \in Shapes /\ ShapeApplies(row.tool, row.shape) /\ row.spell \in Spellings
   /\ row.lab.path \in PathClasses /\ row.lab.pid \in PathClasses /\ row.lab.actor \in Actors
   /\ row.lab.mode \in Modes /\ row.lab.extra \in BOOLEAN /\ row.lab.valid \in BOOLEAN
   /\ row.lab.wire \in {"object", "absent", "nonobject"} /\ row.lab.backend \in {"sqlite", "proxy"}
@@ -64,7 +71,9 @@ TypeOK ==
   /\ (row.lab.conf = "nocfg" => row.lab.path \in {"none", "foreign", "badtype"})     \* nothing configured: nothing is "the configured path"
   /\ (row.lab.conf = "nopid" => row.lab.pid \in {"none", "foreign", "badtype"})
 
-A(r, role, mut, rc, p, a) == Allowed(r.tool, role, mut, rc, p, a)
+\* the name the server sees (a misspelled name is not a tool)
+T == WireTool(row)
+A(r, role, mut, rc, p, a) == Allowed(WireTool(r), role, mut, rc, p, a)
 Here(r) == A(r, r.role, r.mut, r.rc, r.principal, r.actor)
 
 \* a higher role never loses a tool
@@ -77,19 +86,19 @@ MonotoneFlags == Here(row) => /\ A(row, row.role, TRUE, row.rc, row.principal, r
 
 \* with its flag off a flagged tool is never allowed, whatever the role
 FlagOffDenies ==
-  /\ (row.tool \in MutationFlagTools /\ ~row.mut) => ~Here(row)
-  /\ (row.tool \in RuntimeFlagTools /\ ~row.rc) => ~Here(row)
+  /\ (T \in MutationFlagTools /\ ~row.mut) => ~Here(row)
+  /\ (T \in RuntimeFlagTools /\ ~row.rc) => ~Here(row)
 
 \* every mutating tool needs a principal; a mismatching actor is refused
-MutatingNeedsPrincipal == (row.tool \in MutatingTools /\ ~row.principal) => ~Here(row)
-ActorMismatchRefused   == (row.tool \in ActorTools /\ row.actor = "different") => ~Here(row)
+MutatingNeedsPrincipal == (T \in MutatingTools /\ ~row.principal) => ~Here(row)
+ActorMismatchRefused   == (T \in ActorTools /\ row.actor = "different") => ~Here(row)
 
 \* the advertised list is exactly the set of tools a call without (or with the matching) actor may run
 ListedConsistent ==
   LET L == Listed(row.role, row.mut, row.rc, row.principal)
-  IN /\ (row.tool \in L) <=> A(row, row.role, row.mut, row.rc, row.principal, "absent")
-     /\ (row.tool \in L) <=> A(row, row.role, row.mut, row.rc, row.principal, "equal")
-     /\ (row.tool \in L) <=> (\E a \in Actors : A(row, row.role, row.mut, row.rc, row.principal, a))
+  IN /\ (T \in L) <=> A(row, row.role, row.mut, row.rc, row.principal, "absent")
+     /\ (T \in L) <=> A(row, row.role, row.mut, row.rc, row.principal, "equal")
+     /\ (T \in L) <=> (\E a \in Actors : A(row, row.role, row.mut, row.rc, row.principal, a))
      /\ L \subseteq AllTools
 
 \* the default server (role read, no flags, no principal) offers exactly the inspect tools;
@@ -100,21 +109,27 @@ Defaults == /\ Listed("read", FALSE, FALSE, FALSE) = ReadTools
             /\ Listed("operate", TRUE, TRUE, TRUE) = ReadTools \cup OperateTools
             /\ Listed("admin", TRUE, TRUE, FALSE) = AllTools \ MutatingTools
 
-UnknownNeverRuns == row.tool \notin AllTools => (~Here(row) /\ Class(row.tool, row.role, row.mut, row.rc, row.principal, row.actor) = "unknown_tool")
+UnknownNeverRuns == T \notin AllTools => (~Here(row) /\ Class(T, row.role, row.mut, row.rc, row.principal, row.actor) = "unknown_tool")
 
 \* class, denial reasons and the per-call expectation agree
 ClassConsistent ==
-  LET c  == Class(row.tool, row.role, row.mut, row.rc, row.principal, row.actor)
-      dr == DenyReasons(row.tool, row.role, row.mut, row.rc, row.principal, row.actor)
+  LET c  == Class(T, row.role, row.mut, row.rc, row.principal, row.actor)
+      dr == DenyReasons(T, row.role, row.mut, row.rc, row.principal, row.actor)
   IN /\ c \in {"allowed", "denied", "unknown_tool"}
      /\ (c = "allowed") <=> (dr = {})
      /\ row.shape = "minimal" => /\ (c = "allowed") <=> (ExpectObs(row) = "ok")
                                  /\ (c # "allowed") <=> (ExpectObs(row) = "refused")
      /\ ~GateR(row) => ExpectObs(row) = "refused"
 
-AuditOnlyMutating == (AuditExpected(row.tool) = 1) <=> (row.tool \in MutatingTools)
+\* a near miss of a tool name never runs, is never advertised, is never audited, under any role / flag combination
+MisspelledNeverRuns ==
+  row.spell # "exact" => /\ ~Here(row) /\ Refuse(row) /\ ExpectObs(row) = "refused"
+                         /\ \A r2 \in Roles, m \in BOOLEAN, c \in BOOLEAN, p \in BOOLEAN, a \in Actors : ~A(row, r2, m, c, p, a)
+                         /\ T \notin Listed(row.role, row.mut, row.rc, row.principal) /\ AuditExpected(T) = 0
+
+AuditOnlyMutating == (AuditExpected(T) = 1) <=> (T \in MutatingTools)
 
 Invariants == /\ TypeOK /\ MonotoneRole /\ MonotoneFlags /\ FlagOffDenies /\ MutatingNeedsPrincipal
               /\ ActorMismatchRefused /\ ListedConsistent /\ Defaults /\ UnknownNeverRuns /\ ClassConsistent
-              /\ AuditOnlyMutating
+              /\ AuditOnlyMutating /\ MisspelledNeverRuns
 =============================================================================
